@@ -1790,6 +1790,7 @@ class Isometry(projective.Transformation, HyperbolicObject):
             sort_indices = np.expand_dims(sort_indices, axis=-2)
         else:
             sort_indices = np.argsort(in_plane, axis=-1)
+            sort_indices = np.expand_dims(sort_indices, axis=-2)
 
         # we want a descending sort to put maximum modulus eigenvalues first
         sort_indices = np.flip(sort_indices, axis=-1)
